@@ -84,12 +84,10 @@ def handleResv (ws : List String) : String :=
       | some cs =>
         let name := String.ofList cs
         let prop := pos = "dot" ∨ pos = "key" ∨ pos = "getter" ∨ pos = "dotassign"
-        -- region `identifier_zwj_zwnj`: isIdentifierPart (lexer.go:98) has no ZWNJ/ZWJ (ES5 7.6 IdentifierPart includes them): the
-        -- scanner stops in front of the character and reports ILLEGAL, in every position
-        let zw := cs.any fun ch => ch.toNat = 0x200C ∨ ch.toNat = 0x200D
-        let model := !zw && (prop || decide (Reserved.tokenKind name = .identifier))
+        let escaped := sp.contains '\\'
+        let model := prop || decide (Reserved.tokenKindSpelled escaped name = .identifier)
         let spec := prop || !Reserved.isReserved name
-        verdict model ++ " " ++ verdict spec ++ " " ++ (if zw then "identifier_zwj_zwnj" else "-")
+        verdict model ++ " " ++ verdict spec ++ " -"
       | none => "bad-escape bad-escape -"
     | none => "bad-request bad-request -"
   | _ => "bad-request bad-request -"
@@ -106,8 +104,10 @@ def handleResvTok (ws : List String) : String :=
       match Reserved.decode sp.toList with
       | some cs =>
         let name := String.ofList cs
-        let model := kindName (Reserved.tokenKind name)
-        let spec := if Reserved.isReserved name then
+        let escaped := sp.contains '\\'
+        let model := kindName (Reserved.tokenKindSpelled escaped name)
+        let spec := if Reserved.isReserved name ∧ escaped then "KEYWORD"   -- 7.6: reserved, and not the keyword
+          else if Reserved.isReserved name then
             (if name = "null" then "NULL" else if name = "true" ∨ name = "false" then "BOOLEAN"
              else if ["class", "const", "enum", "export", "extends", "import", "super"].contains name then "KEYWORD" else name)
           else "IDENTIFIER"
